@@ -44,6 +44,16 @@ CLAIMED = {
         note="Trusted: Lean kernel; JSON/compact renderings of the abstract config; HDR10+/madVR parsers are third-party inputs to the same shot list (exercised via sample files in C17). Block precedence is decided by the model (M4 upsert) through the correspondence.",
         design="DESIGN.md section 7 C10",
         technique="Lean 4 proof over the generator model + CLI/model correspondence + direct oracles"),
+    "C11": dict(
+        text="Lean XmlSpec (integer encodings of trims over scaled decimals, L8 length rule, L5 offsets, primaries tables, shot sorting) with 36 theorems (trim_range, l8_length_minimal_lossless, l5_offsets_sum, shots_sorted / stable / permutation, frame_count, frame_edit_only_its_frame, ...); generated CM XML documents of versions 2.0.5/4.0.2/5.0.0/5.1.0 run through the real CLI; every field of every generated RPU is compared with an exact-rational specification of the documented formulas (tie rule: a value within 2^-8 of a rounding tie accepts the neighbour and is counted), and the tool's bytes with the Lean GenModel run on the specification's integer config.",
+        note="Partial: float rounding at ties is not decided (counted as tie_ambiguous); XML text parsing (roxmltree) is a parameter; the rational spec is the trusted statement of the documented formulas.",
+        design="DESIGN.md section 7 C11",
+        technique="Lean 4 proof over the integer XML spec + exact-rational reference + CLI/model correspondence"),
+    "C19": dict(
+        text="Lean 4 + Mathlib (single module) proofs over the reals: ST 2084 strict monotonicity, both inverse laws, end points; certified integer tables (all integer nits 0..10000, all min-luminance k/10000, all 4096 codes with tie-point brackets) whose rational enclosure certificates are checked by decide +kernel and lifted to |4095 PQ(n) - code| < 1/2 - 1e-6; anchors; code round trip. The real f64 functions are compared exhaustively with the certified tables (and the derived users: L2 from_nits, XML target/source PQ, L6-derived source PQ, summary rounding).",
+        note="Partial: IEEE-754 / libm error is assumed below the certified margin and that assumption is checked on the whole domain, not proved.",
+        design="DESIGN.md section 7 C19",
+        technique="Lean 4 + Mathlib proof over the reals + kernel-checked certificate tables + exhaustive f64 correspondence"),
     "C12": dict(
         text="Lean theorems about the container model (count equals number of blocks after every touching operation, sorting only permutes, add/remove keep the level invariant, absent container is a no-op or an error); the model's result after every operation of random sequences is compared with the real code's JSON, and the invariants (level routing, count, sortedness of the touched container, keyed upsert) are checked on the real code's JSON after every operation.",
         note="Trusted: Lean kernel, harness. Operations are applied through the public Rust API in-process.",
